@@ -38,6 +38,12 @@ CLAIMS = {
   text="Proved: rangeScan = take limit (filter (in bounds and not expired) sorted-entries) with current values (range_spec) — so results are strictly ascending in byte order, inside the inclusive bounds, at most limit, the smallest such, skipped expired entries do not consume the limit (range_props), start > end and limit 0 give nothing (range_empty), nothing in range is missing when the limit is large enough (range_complete); byte-lexicographic order is a strict total order (bytesLt_trans/total) and keys stay unique and sorted in every reachable state (reachable_sorted). Tie: kv engine with shared-prefix key sets, empty/0xFF../truncated bounds, limits 0,1,2,3,100,usize::MAX, expired entries inside the window, all tiers; periodic dumps check that the hash index and the ordered index hold the same keys.",
   note='Trusted: Lean kernel; axioms propext/Classical.choice/Quot.sound; gen_constants.py; the kv harness + driver correspondence (differential, call by call incl. len()/memory_usage()); json-patch, wall clock and key->shard hash enter the model as recorded inputs; concurrency is outside this engine.' + " Partial: the concurrent clauses (stable key seen once, deleted-before never seen) are outside this engine."),
 
+
+ "C15": dict(engine="fmt", design="6/C15",
+  technique="Lean 4 theorems about a model of migrate() (read-only recovery of the source + a finite-table proof of the destination-guard automaton) + differential check of the real migrate() with the Lean reader on source and destination files",
+  text="Feox.Fmt.migrateModel = read-only recovery of the legacy image (TTL off) + format/key-size/size checks; Feox.Fmt.runGuard = the DestinationGuard automaton (existence check, temporary file, copy, hard-link publication, verification, rollback, drop) with a failure possible at every step and a foreign file possibly appearing at the destination meanwhile. Proved: a read-only open issues no device write for any image (source_untouched, migrate_source_untouched), on success the copied set is exactly the read-only recovery's live set with expired newest generations kept (faithful), current-format sources and unrecoverable v1 keys are refused, ambiguous legacy markers fail without the opt-in, and by a complete finite table (guard_table + allEnvs_complete): an existing destination is never modified, a failed migration leaves neither destination nor temporary file, a foreign file is never removed or replaced, success means our file is published. "
+       "Tie: the fmt engine runs the real migrate() on legacy images produced by the real store (clean, damaged, with ambiguous markers; with and without opt-in; onto existing destinations) and the Lean reader recovers both files and requires identical keys, timestamps, absolute expiries and value digests, identical outcome class, record count and destination size.",
+  note="Trusted: Lean kernel; axioms propext/Classical.choice/Quot.sound; fmt harness+driver; the file system model is abstract (hard_link atomicity, directory fsync trusted); SourceChanged detection not exercised."),
  "C16": dict(engine="cache", design="6/C16",
   technique="Lean 4 invariant proof of exact cache accounting over all operation sequences + generation-exact hit theorem on a model of ClockCache; differential check of the real ClockCache and of the store with cache on/off",
   text="Feox.Cache models ClockCache (buckets by hash, record-tagged entries with the generation rules of can_replace_generation, CLOCK sweep with reference bits, watermarks, clear). Proved for every sequence of insert/insert_for_record/get/get_for_record/remove/evict/clear/adjust operations and any bucket hash: reported memory = total size of held entries (accounting, via per-operation invariance lemmas incl. the sweep debit lemma sweepBucket_size), a get_for_record hit comes only from an entry tagged with exactly that generation (hit_is_own_generation), a retired generation never replaces a cached one and a live cached generation is displaced only by itself or a strictly newer one (retired_generation_never_replaces, replace_needs_newer), oversized values are never cached. "
@@ -103,7 +109,7 @@ def main():
              "kind_free_text": "differential correspondence: every public FeoxStore method, call by call, vs the Lean reference map"},
             {"name": "cache", "path": "harness/src/bin/cache.rs + lean/Feox/Cache", "serves_properties": ["C16"],
              "kind_free_text": "differential correspondence: real ClockCache vs the Lean cache model"},
-            {"name": "fmt", "path": "harness/src/bin/fmt.rs + lean/Feox/Fmt", "serves_properties": ["C10", "C17"],
+            {"name": "fmt", "path": "harness/src/bin/fmt.rs + lean/Feox/Fmt", "serves_properties": ["C10", "C15", "C17"],
              "kind_free_text": "differential correspondence: codec functions and whole-file open/recovery vs the Lean layout model"},
         ],
         "checks": checks,
